@@ -29,7 +29,7 @@ RULE = ('winnow: every list of <=5 processes with exit codes in '
         'faults: generated reference problems (5-8 leaves, 2-3 levels, '
         '10-16 genes) x 8 stage fixtures x worker index x {before,mid,after} '
         'x {raise,os._exit(3),SIGKILL} with n_processors in 2..4; quick = '
-        'first+last worker, thorough = every worker on 5 problems. '
+        'last worker x 9 + first worker x 3, thorough = every worker x 9 on 6 problems. '
         'non-trivial = winnow list with a finished process / a fault that '
         'actually fired in a stage with >=2 workers; distinct by '
         '(stage, n_workers, worker, point, mode, problem)')
@@ -51,6 +51,7 @@ STAGE_OF_FIXTURE = {'mapping': 'mapping', 'stats': 'stats',
                     'refMarkers': 'refMarkers',
                     'refMarkers.transpose': 'refMarkers',
                     'pMask': 'pMask', 'pMarkers': 'pMarkers',
+                    'pMarkers.transpose': 'pMarkers',
                     'selection': 'selection', 'transpose': 'transpose'}
 SUCCESS_LINE = 'RAN SUCCESSFULLY'
 
@@ -412,7 +413,7 @@ def check_fault(ctx, fixture, prob_seed, n_leaves, n_proc, worker, point,
         disagree = None
         if out['outcome'] != 'failed' or out.get('code') != want_code:
             disagree = 'model outcome %r' % (out,)
-        elif fixture != 'refMarkers.transpose' and impl_code != want_code:
+        elif not fixture.endswith('.transpose') and impl_code != want_code:
             disagree = 'implementation reported exit code %r, expected %r' \
                 % (impl_code, want_code)
         elif fixture == 'mapping':
@@ -467,7 +468,9 @@ def run_faults(ctx):
                  (rng.randrange(2 ** 31), 7, 3),
                  (rng.randrange(2 ** 31), 8, 4),
                  (rng.randrange(2 ** 31), 6, 4),
-                 (rng.randrange(2 ** 31), 8, 2)]
+                 (rng.randrange(2 ** 31), 8, 2),
+                 # 4 leaves = 6 pairs: the dict stages have a single worker
+                 (rng.randrange(2 ** 31), 4, 3)]
     for prob_seed, n_leaves, n_proc in plans:
         prob = make_problem(prob_seed, n_leaves)
         with pipeline.workdir('ctmverif_c14_') as d:
@@ -490,8 +493,13 @@ def run_faults(ctx):
                 else:
                     workers = list(range(n_workers))
                 for w in workers:
-                    for point in faults.POINTS:
-                        for mode in faults.MODES:
+                    for pi, point in enumerate(faults.POINTS):
+                        for mi, mode in enumerate(faults.MODES):
+                            # quick: all 9 combinations on the last worker,
+                            # one mode per point on the first
+                            if ctx.tier == 'quick' and w != workers[-1] \
+                                    and mi != pi:
+                                continue
                             check_fault(ctx, fixture, prob_seed, n_leaves,
                                         n_proc, w, point, mode, st=st,
                                         n_workers=n_workers,
